@@ -9,7 +9,7 @@ PID = "C02"
 MODULE = "Check.C02"
 VERDICT = "verdict_C02 [] []"
 CLASS_BITS = {64: "K_import_provenance", 128: "K_two_definitions_on_one_line"}
-NCASES = (60, 2000)
+NCASES = (160, 2000)
 shrinkable = True
 RULE = ("generator W-chains (gen/wsgen.py gen_chain_workspace): one name overridden along a chain of 1-4 links placed on "
         "{using module, each ancestor conftest, workspace plugin, site-packages}, each link requesting its parent with "
